@@ -1,6 +1,7 @@
 package props
 
 import (
+	"bytes"
 	"fmt"
 	"sort"
 	"strings"
@@ -234,7 +235,7 @@ func TestC10(t *testing.T) {
 	rep := lib.NewReport("C10", "model_checking")
 	defer rep.Finish(t)
 	cases := c10cases()
-	rep.Rule = "exhaustive product: 0..4 (quick 3) committed bundles one fake second apart x per-bundle labels in {none, plain tag, semver tag, plain tag listed before + semver, semver + plain tag listed after} x an interrupted upload (1 or 2 index files written, no descriptor) at every position (none/before/between/after) x retain-N in 1..3 (quick 2) x {no option, retain-tags, retain-semver-tags}; real RepoSquash in a fake-clock bubble; oracle: kept = N most recent committed + labelled per option, the rest and their labels gone (no metadata left), kept bundles download unchanged, most recent committed bundle always kept; distinct = distinct cases"
+	rep.Rule = "exhaustive product: 0..4 (quick 3) committed bundles one fake second apart x per-bundle labels in {none, plain tag, semver tag, plain tag listed before + semver, semver + plain tag listed after} x an interrupted upload (1 or 2 index files written, no descriptor) at every position (none/before/between/after) x retain-N in 1..3 (quick 2) x {no option, retain-tags, retain-semver-tags}; real RepoSquash in a fake-clock bubble; oracle: kept = N most recent committed + labelled per option, the rest and their labels gone (no metadata left), kept bundles download unchanged, most recent committed bundle always kept; plus squash (retain 1, with/without a leftover newer than every bundle, with/without retain-tags) under a single transient failure at EVERY metadata call: bundles to keep are never removed and stay downloadable whatever squash reports, a reported success means exactly the specified set; distinct = distinct cases"
 	parent := lib.RunCases(t, rep, "TestC10", len(cases), 0, 120*time.Second, func(i int) {
 		c10run(t, rep, cases[i])
 		rep.AddStates(1, 1, 1)
@@ -244,5 +245,129 @@ func TestC10(t *testing.T) {
 	if parent {
 		rep.Set("cases", len(cases))
 		rep.Sample(map[string]interface{}{"case": cases[len(cases)/2].String()})
+		c10faults(t, rep)
+	}
+}
+
+// ---- squash under a single transient store failure (E1, fault enumeration) ---------------------------------
+
+type c10fworld struct {
+	w      *World
+	ids    []string
+	files  map[string]map[string][]byte
+	labels map[string]string
+}
+
+func c10faults(t *testing.T, rep *lib.Report) {
+	gates := map[string]func(string, string) bool{"meta": allCalls, "vmeta": allCalls}
+	for _, cfg := range []struct {
+		leftover bool
+		opt      string
+	}{{false, ""}, {true, ""}, {true, "tags"}} {
+		cfg := cfg
+		sc := &lib.Scenario{Name: fmt.Sprintf("squash-under-fault leftover=%v opt=%q", cfg.leftover, cfg.opt)}
+		sc.Setup = func(x *lib.Exec) {
+			fw := &c10fworld{w: NewWorld(), files: map[string]map[string][]byte{}, labels: map[string]string{}}
+			fw.w.Blob.NoJournal = true
+			st := fw.w.Stores()
+			_ = mkRepo(st, "r")
+			for i := 0; i < 3; i++ {
+				f := map[string][]byte{"common": []byte("same"), fmt.Sprintf("f%d", i): []byte(fmt.Sprintf("content-%d", i))}
+				b, err := uploadFiles(st, "r", f, c11L, 0)
+				if err != nil {
+					panic(err)
+				}
+				fw.ids = append(fw.ids, b.BundleID)
+				fw.files[b.BundleID] = f
+				time.Sleep(time.Second)
+			}
+			if err := setLabel(st, "r", "tag0", fw.ids[0]); err != nil {
+				panic(err)
+			}
+			fw.labels["tag0"] = fw.ids[0]
+			if cfg.leftover { // an upload interrupted after its index files, more recent than every committed bundle
+				id, _ := ksuid.NewRandom()
+				fw.w.Meta.RawSet(model.GetArchivePathToBundleFileList("r", id.String(), 0), []byte("BundleEntries: []\n"))
+				time.Sleep(time.Second)
+			}
+			x.Data["fw"] = fw
+		}
+		sc.Phases = [][]lib.ClientFn{{func(x *lib.Exec, id int) error {
+			fw := x.Data["fw"].(*c10fworld)
+			opts := []core.Option{core.WithRetainNLatest(1)}
+			if cfg.opt == "tags" {
+				opts = append(opts, core.WithRetainTags(true))
+			}
+			return noPanic(x, func() error { return core.RepoSquash(fw.w.Gated(x, id, gates), "r", opts...) })
+		}}}
+		sc.Faults = transientFaults(0)
+		sc.Final = func(x *lib.Exec) {
+			fw := x.Data["fw"].(*c10fworld)
+			site := faultClass(x)
+			shape := fmt.Sprintf("leftover=%v|opt=%s", cfg.leftover, cfg.opt)
+			if x.Hung {
+				x.Violate("C10|under-fault|hang|"+shape, "squash never returned under "+site)
+				return
+			}
+			err := x.ClientErr[0]
+			x.SetOutcome(site + ";" + errTag(err))
+			if p, ok := x.Data["panic"].(string); ok {
+				x.Violate("C10|under-fault|panic|"+shape, fmt.Sprintf("squash panicked under %s: %s", site, p))
+			}
+			if site == "none" && err != nil {
+				x.Violate("C10|under-fault|error-without-fault|"+shape, err.Error())
+				return
+			}
+			st := fw.w.Stores()
+			keep := map[string]bool{fw.ids[2]: true}
+			if cfg.opt == "tags" {
+				keep[fw.ids[0]] = true
+			}
+			bs, lerr := core.ListBundles("r", st)
+			if lerr != nil {
+				x.Violate("C10|under-fault|list-error-after-squash|"+shape, lerr.Error())
+				return
+			}
+			got := map[string]bool{}
+			for _, b := range bs {
+				got[b.ID] = true
+			}
+			for i, id := range fw.ids {
+				switch {
+				case keep[id] && !got[id]:
+					sig := "bundle-to-keep-removed"
+					if i == 2 {
+						sig = "most-recent-committed-bundle-removed"
+					}
+					x.Violate("C10|under-fault|"+sig+"|"+shape, fmt.Sprintf("squash (result: %v) under %s removed committed bundle #%d", err, site, i))
+				case !keep[id] && got[id] && err == nil:
+					x.Violate("C10|under-fault|success-but-bundle-to-remove-kept|"+shape, fmt.Sprintf("squash returned nil under %s but kept bundle #%d", site, i))
+				}
+				if got[id] {
+					dest := lib.NewMemStore("dest")
+					dest.NoCRC, dest.NoJournal = true, true
+					if _, derr := downloadBundle(st, "r", id, dest, 0); derr != nil {
+						if keep[id] || err == nil {
+							x.Violate("C10|under-fault|listed-bundle-not-downloadable|"+shape, fmt.Sprintf("squash (result: %v) under %s: bundle #%d: %v", err, site, i, derr))
+						}
+					} else {
+						snap := dest.Snapshot()
+						for n, d := range fw.files[id] {
+							if !bytes.Equal(snap[n], d) {
+								x.Violate("C10|under-fault|kept-bundle-content|"+shape, fmt.Sprintf("under %s: bundle #%d file %s differs", site, i, n))
+							}
+						}
+					}
+				}
+			}
+			if got[fw.ids[0]] && keep[fw.ids[0]] {
+				if l, gerr := getLabel(st, "r", "tag0"); gerr != nil || l != fw.ids[0] {
+					x.Violate("C10|under-fault|label-of-kept-bundle-lost|"+shape, fmt.Sprintf("under %s: tag0 resolves to %q (%v)", site, l, gerr))
+				}
+			}
+		}
+		e := &lib.Explorer{Sc: sc, PreemptBound: 0, FaultBound: 1, MaxExecs: 50000, Budget: 8 * time.Minute}
+		e.Explore(t, rep)
+		rep.Set("executions:"+sc.Name, e.Execs)
 	}
 }
